@@ -10,6 +10,7 @@ import (
 	"regexp"
 	"sort"
 	"strings"
+	"time"
 
 	"github.com/mithrandie/csvq/lib/query"
 
@@ -19,8 +20,9 @@ import (
 
 func init() {
 	core.Register(&core.Check{
-		ID:    "C13",
-		Level: "exploration",
+		ID:             "C13",
+		ThoroughBudget: 45 * time.Minute,
+		Level:          "exploration",
 		Rule: "the C12 scenarios plus file-loading scenarios are executed by a -race build of the real query code under the goroutine-schedule explorer, whose hand-offs are invisible to the race detector (spin on plain memory in norace functions) " +
 			"while csvq's own mutexes are really taken: for EVERY schedule with at most S non-default scheduling decisions (S=1 quick, 2 thorough) and every map order with at most one deviating site the detector's report log must stay empty; " +
 			"each scenario is additionally run free (no scheduler, 4 workers, larger tables) a few times. one case = one (scenario, choice vector); non-trivial = more than one task ran",
